@@ -186,6 +186,7 @@ pub async fn run_case(case: Vec<String>, detail: bool) -> String {
     let cseq = header_lines(&first, "cseq").join("\r\n");
 
     let mut pi = 0;
+    let mut burst = 0;
     for (ai, (t, code, tag)) in arrivals.iter().enumerate() {
         while pi < probes.len() && probes[pi] < *t {
             advance_to(&clock, probes[pi]).await;
@@ -205,8 +206,16 @@ pub async fn run_case(case: Vec<String>, detail: bool) -> String {
             _ => dest,
         };
         inject(&endpoint, resp.as_bytes(), source, &tp);
+        // arrivals at one instant are a burst: all of them are in before the caller (or anybody else) runs again
+        if arrivals.get(ai + 1).map(|n| n.0 == *t).unwrap_or(false) {
+            burst += 1;
+            continue;
+        }
         settle_now().await;
-        evlog.lock().push((next_seq(), *t, format!("N:{}", endpoint.verif_counts().0)));
+        for _ in 0..=burst {
+            evlog.lock().push((next_seq(), *t, format!("N:{}", endpoint.verif_counts().0)));
+        }
+        burst = 0;
     }
     while pi < probes.len() && probes[pi] < horizon {
         advance_to(&clock, probes[pi]).await;
